@@ -374,6 +374,9 @@ impl Model {
 
     pub fn top_level_sudo(&mut self, contract: &str, node: &Node) -> Result<MResp, ()> {
         let s0 = self.s.clone();
+        if self.module_call("wasm.sudo", "", contract.to_string()).is_err() {
+            return Err(());
+        }
         let e = ev("sudo", &[(CONTRACT_ATTR, contract)]);
         match self.call(contract, "sudo", "", &[], node, None, e, 0) {
             Ok(r) => Ok(r),
@@ -389,6 +392,7 @@ impl Model {
             CMsg::Send { to, coins } => self.bank_send(sender, to, coins),
             CMsg::Burn { coins } => self.bank_burn(sender, coins),
             CMsg::Exec { contract, node, funds } => {
+                self.module_call("wasm", sender, format!("execute:{}", contract))?;
                 if !self.valid_addr(contract) {
                     self.fault("invalid_address");
                     return Err(());
@@ -404,6 +408,11 @@ impl Model {
                 Ok(r)
             }
             CMsg::Inst { code_id, slot: _, node, funds, label, admin, salt } => {
+                let payload = match salt {
+                    None => format!("instantiate:{}:{}", code_id, label),
+                    Some(s) => format!("instantiate2:{}:{}:{}", code_id, label, hex(s)),
+                };
+                self.module_call("wasm", sender, payload)?;
                 if label.is_empty() {
                     self.fault("empty_label");
                     return Err(());
@@ -479,6 +488,7 @@ impl Model {
                 Ok(r)
             }
             CMsg::Migrate { contract, code_id, node } => {
+                self.module_call("wasm", sender, format!("migrate:{}:{}", contract, code_id))?;
                 if !self.valid_addr(contract) {
                     self.fault("invalid_address");
                     return Err(());
@@ -506,8 +516,14 @@ impl Model {
                 self.probe("migrate_ok");
                 Ok(r)
             }
-            CMsg::UpdateAdmin { contract, admin } => self.set_admin(sender, contract, Some(admin.clone())),
-            CMsg::ClearAdmin { contract } => self.set_admin(sender, contract, None),
+            CMsg::UpdateAdmin { contract, admin } => {
+                self.module_call("wasm", sender, format!("update_admin:{}:{}", contract, admin))?;
+                self.set_admin(sender, contract, Some(admin.clone()))
+            }
+            CMsg::ClearAdmin { contract } => {
+                self.module_call("wasm", sender, format!("clear_admin:{}", contract))?;
+                self.set_admin(sender, contract, None)
+            }
             CMsg::Custom { tag } => {
                 self.module_call("custom", sender, tag.clone())?;
                 Ok(MResp::default())
@@ -676,6 +692,11 @@ impl Model {
             }
             QueryOp::Raw { contract, key } => {
                 let a = names.target(contract, self_addr);
+                let k = names.key(key);
+                if self.module_call("wasm.query", "", format!("raw:{}:{}", a, hex(&k))).is_err() {
+                    return "ERR".into();
+                }
+                let names = &self.names;
                 if !self.valid_addr(&a) {
                     return "ERR".into();
                 }
@@ -686,6 +707,9 @@ impl Model {
             }
             QueryOp::Smart { contract, keys } => {
                 let a = names.target(contract, self_addr);
+                if self.module_call("wasm.query", "", format!("smart:{}", a)).is_err() {
+                    return "ERR".into();
+                }
                 if !self.valid_addr(&a) {
                     return "ERR".into();
                 }
@@ -701,6 +725,9 @@ impl Model {
             }
             QueryOp::ContractInfo { contract } => {
                 let a = names.target(contract, self_addr);
+                if self.module_call("wasm.query", "", format!("contract_info:{}", a)).is_err() {
+                    return "ERR".into();
+                }
                 if !self.valid_addr(&a) {
                     return "ERR".into();
                 }
@@ -711,6 +738,9 @@ impl Model {
             }
             QueryOp::CodeInfo { code } => {
                 let id = names.code_id(*code);
+                if self.module_call("wasm.query", "", format!("code_info:{}", id)).is_err() {
+                    return "ERR".into();
+                }
                 match self.codes.get(&id) {
                     Some(c) => format!("{}|{}|{}", id, c.creator, c.checksum),
                     None => "ERR".into(),
@@ -848,6 +878,16 @@ impl Model {
                 ReadOp::Range { start, end, desc } => crate::storage::model_range(kv, start.as_deref(), end.as_deref(), *desc)
                     .iter()
                     .map(|(k, v)| format!("{}={}", hex(k), hex(v)))
+                    .collect::<Vec<_>>()
+                    .join(","),
+                ReadOp::Keys { start, end, desc } => crate::storage::model_range(kv, start.as_deref(), end.as_deref(), *desc)
+                    .iter()
+                    .map(|(k, _)| hex(k))
+                    .collect::<Vec<_>>()
+                    .join(","),
+                ReadOp::Values { start, end, desc } => crate::storage::model_range(kv, start.as_deref(), end.as_deref(), *desc)
+                    .iter()
+                    .map(|(_, v)| hex(v))
                     .collect::<Vec<_>>()
                     .join(","),
             })
